@@ -243,22 +243,32 @@ impl<'a> MutGen<'a> {
 fn header_sweep(seeds: &[Seed], rng: &mut Rng, every: usize) -> Vec<Mutant> {
     let mut g = MutGen { seeds, rng: rng.fork(), thorough: false };
     let mut out = vec![]; let mut n = 0usize;
+    // quick tier: one (the smallest) seed per tool x game x flags and the three / two most telling values; thorough: everything
+    let quick = every > 1;
+    let mut chosen: BTreeMap<String, usize> = BTreeMap::new();
     for si in 0..seeds.len() {
+        let key = format!("{}:{}:{}", seeds[si].tool, seeds[si].game.trim_start_matches('0'), seeds[si].flags.join(""));
+        let e = chosen.entry(key).or_insert(si);
+        if seeds[si].bytes.len() < seeds[*e].bytes.len() { *e = si; }
+    }
+    let picked: Vec<usize> = chosen.values().cloned().collect();
+    for si in 0..seeds.len() {
+        let _ = &picked;   // (a one-seed-per-format selection is no longer needed: batched library runs are cheap)
         let b = seeds[si].bytes.clone(); let len = b.len() as u32;
         let hdr = b.len().min(160);
         let mut k = 0;
         while k + 2 <= hdr {
             if k % 4 == 0 && k + 4 <= b.len() {
-                for v in [0u32, 1, 0x7FFF_FFFF, 0x8000_0000, 0xFFFF_FFFF, len.wrapping_sub(1), len + 1] {
-                    n += 1; if n % every != 0 { continue; }
+                for (vi, v) in [0xFFFF_FFFFu32, 0x7FFF_FFFF, 0, 1, 0x8000_0000, len.wrapping_sub(1), len + 1].into_iter().enumerate() {
+                    n += 1; if quick && vi >= 3 { continue; }
                     let mut m = b.clone(); put32(&mut m, k, v);
                     let mut mu = g.mk(si, "hdr32", format!("hdr32@{}={:#x}", k, v), m);
                     if n % 8 != 0 { mu.action = "read"; mu.opts = vec![]; }
                     out.push(mu);
                 }
             }
-            for v in [0u32, 1, 0x7FFF, 0x8000, 0xFFFF] {
-                n += 1; if n % every != 0 { continue; }
+            for (vi, v) in [0xFFFFu32, 0, 1, 0x7FFF, 0x8000].into_iter().enumerate() {
+                n += 1; if quick && vi >= 2 { continue; }
                 let mut m = b.clone(); put16(&mut m, k, v);
                 let mut mu = g.mk(si, "hdr16", format!("hdr16@{}={:#x}", k, v), m);
                 if n % 8 != 0 { mu.action = "read"; mu.opts = vec![]; }
@@ -345,6 +355,8 @@ fn run_one(dir: &Path, seed: &Seed, bytes: &[u8], action: &str, opts: &[&str], e
 }
 
 fn worker(seeds: &[Seed], muts: &[Mutant], k: usize, n: usize) {
+    // warm-up in the parent: lazily initialised statics (regexes, tables) are then inherited by every forked child
+    if let Some(s0) = seeds.get(0) { let _ = run_inproc(s0, &s0.bytes, "decompile", &[], &work_dir("c16").join("warm-xout")); }
     let dir = work_dir("c16").join(format!("fw{}", k)); let _ = std::fs::create_dir_all(&dir);
     let mut cnt = 0usize;
     for (i, m) in muts.iter().enumerate() {
@@ -541,18 +553,63 @@ fn run_inproc(seed: &Seed, bytes: &[u8], action: &str, opts: &[&str], xdir: &Pat
     })
 }
 
-/// one library run in a forked child (an abort by allocation failure or a stack overflow must not take the harness down)
-fn run_lib_forked(dir: &Path, seed: &Seed, bytes: &[u8], action: &str, opts: &[&str]) -> Outcome {
-    let xdir = dir.join("xout");
-    let fname = format!("in.{}", ext_of(&seed.tool));
-    let r = run_forked_with(dir, || {
-        match run_inproc(seed, bytes, action, opts, &xdir) {
-            Ok(true) => 0,
-            Ok(false) => { eprintln!("error: {}: (library) an error was reported", fname); 1 },
-            Err((site, msg, bt)) => { eprintln!("\nthread 'main' panicked at {}:\n{}\nstack backtrace:\n{}", site, msg, bt); 101 },
+/// A batch of library runs in ONE forked child (fork + copy-on-write costs tens of ms here; a read costs one or two).
+/// The child appends `S <i>` before and `E <i> <ok> <class> <detail>` after each case to a progress file; when it dies
+/// (allocation failure, stack overflow, CPU limit) the case in progress is the culprit and the parent goes on behind it.
+fn run_lib_batch(dir: &Path, seeds: &[Seed], muts: &[Mutant], idx: &[usize]) -> Vec<(usize, Outcome)> {
+    let mut out = vec![];
+    let mut pos = 0usize;
+    let prog = dir.join("progress.txt");
+    while pos < idx.len() {
+        let _ = std::fs::remove_file(&prog);
+        let todo = &idx[pos..];
+        let xdir = dir.join("xout");
+        let progc = prog.clone();
+        let r = run_forked_with(dir, 60, || {
+            use std::io::Write;
+            let mut f = match std::fs::OpenOptions::new().create(true).append(true).open(&progc) { Ok(f) => f, Err(_) => return 3 };
+            for &i in todo {
+                let m = &muts[i]; let seed = &seeds[m.seed];
+                let _ = writeln!(f, "S\t{}", i); let _ = f.flush();
+                let t0 = cpu_seconds();
+                let r = run_inproc(seed, &m.bytes, m.action, &m.opts, &xdir);
+                let used = cpu_seconds() - t0;
+                let (ok, class, detail) = match r {
+                    _ if used > TIMEOUT_S as f64 => (false, format!("c16-timeout:{}:{}", seed.tool, m.action), format!("{:.1} s of CPU time", used)),
+                    Ok(true) => (true, "ok".to_string(), String::new()),
+                    Ok(false) => (true, "err".to_string(), String::new()),
+                    Err((site, msg, bt)) => (false, panic_class("c16", &site, &msg, &bt), format!("panicked at {}: {}", site, msg)),
+                };
+                let _ = writeln!(f, "E\t{}\t{}\t{}\t{}", i, ok, class, detail.replace('\t', " ").replace('\n', " ")); let _ = f.flush();
+            }
+            0
+        });
+        let text = std::fs::read_to_string(&prog).unwrap_or_default();
+        let mut started: Option<usize> = None; let mut finished = 0usize;
+        for l in text.lines() {
+            let f: Vec<&str> = l.split('\t').collect();
+            if f[0] == "S" { started = f.get(1).and_then(|x| x.parse().ok()); }
+            else if f[0] == "E" && f.len() >= 5 {
+                let i: usize = f[1].parse().unwrap_or(0);
+                out.push((i, Outcome { ok: f[2] == "true", class: f[3].to_string(), detail: f[4].to_string(), rc: if f[3] == "ok" { 0 } else { 1 } }));
+                finished += 1; started = None;
+            }
         }
-    });
-    classify("c16", &r, &[], &format!("{}:{}", seed.tool, action))
+        pos += finished;
+        if let Some(i) = started {
+            // the child died in the middle of case i
+            let m = &muts[i];
+            let mut o = classify("c16", &r, &[], &format!("{}:{}", seeds[m.seed].tool, m.action));
+            if o.ok { o = Outcome { ok: false, class: format!("c16-died:{}:{}", seeds[m.seed].tool, m.action), detail: format!("library child ended (code {:?}, signal {:?}) during this case", r.code, r.signal), rc: -1 }; }
+            out.push((i, o)); pos += 1;
+        } else if finished == 0 {
+            // no progress at all: do not loop forever
+            let i = todo[0]; let m = &muts[i];
+            out.push((i, Outcome { ok: false, class: format!("c16-died:{}:{}", seeds[m.seed].tool, m.action), detail: format!("library child made no progress (code {:?}, signal {:?}): {}", r.code, r.signal, r.stderr.chars().take(200).collect::<String>()), rc: -1 }));
+            pos += 1;
+        }
+    }
+    out
 }
 
 fn lib_mutants(seeds: &[Seed], budget: usize, tier: &str, rng: &mut Rng) -> Vec<Mutant> {
@@ -564,14 +621,16 @@ fn lib_mutants(seeds: &[Seed], budget: usize, tier: &str, rng: &mut Rng) -> Vec<
 
 fn lib_worker(seeds: &[Seed], muts: &[Mutant], k: usize, n: usize) {
     truth::setup_for_test_harness();
+    // warm-up in the parent: lazily initialised statics (regexes, tables) are then inherited by every forked child
+    if let Some(s0) = seeds.get(0) { let _ = run_inproc(s0, &s0.bytes, "decompile", &[], &work_dir("c16").join("warm-xout")); }
     let dir = work_dir("c16").join(format!("lw{}", k)); let _ = std::fs::create_dir_all(&dir);
+    let mine: Vec<usize> = (0..muts.len()).filter(|i| i % n == k).collect();
     let mut cnt = 0usize;
-    for (i, m) in muts.iter().enumerate() {
-        if i % n != k { continue; }
-        let mut o = run_lib_forked(&dir, &seeds[m.seed], &m.bytes, m.action, &m.opts);
-        if o.class.contains("-timeout") { o = run_lib_forked(&dir, &seeds[m.seed], &m.bytes, m.action, &m.opts); }
-        cnt += 1;
-        if !o.ok || m.kind == "seed" { println!("R\t{}\t{}\t{}\t{}\t{}", i, o.ok, o.class, o.detail.replace('\t', " ").replace('\n', " "), o.rc); }
+    for chunk in mine.chunks(64) {
+        for (i, o) in run_lib_batch(&dir, seeds, muts, chunk) {
+            cnt += 1;
+            if !o.ok || muts[i].kind == "seed" { println!("R\t{}\t{}\t{}\t{}\t{}", i, o.ok, o.class, o.detail.replace('\t', " ").replace('\n', " "), o.rc); }
+        }
     }
     println!("WDONE\t{}\t{}", k, cnt);
 }
